@@ -23,10 +23,6 @@
 /* Return the next linear probe index */
 #define MAP_PROBE_NEXT(map, index)  MAP_SIZE_MOD(map, (index) + 1)
 
-/* Check if index b is less than or equal to index a */
-#define MAP_INDEX_LE(map, a, b)     \
-    ((a) == (b) || (((b) - (a)) & ((map)->table_size >> 1)) != 0)
-
 #define MAP_FOREACH(table, size, fn)  \
     for (map_elem *entry = table; entry < &table[size]; ++entry) { fn }
 
@@ -230,17 +226,17 @@ static void clear_elem(m_map_t *m, map_elem *removed_entry) {
     m->length--;
     
     size_t removed_index = (removed_entry - m->table);
-    const size_t probe_len = MAP_PROBE_LEN(m);    
     size_t index = MAP_PROBE_NEXT(m, removed_index);
-    for (size_t i = 0; i < probe_len; i++) {
+    /* Walk the whole chain: it ends at the first empty slot */
+    for (size_t i = 1; i < m->table_size; i++) {
         map_elem *entry = &m->table[index];
         if (!entry->key) {
             /* Reached end of chain */
             break;
         }
         const size_t entry_index = hashmap_calc_index(m, entry->key);
-        /* Shift in entries with an index <= to the removed slot */
-        if (MAP_INDEX_LE(m, removed_index, entry_index)) {
+        /* Shift in entries whose probe sequence (home slot -> current slot) crosses the removed slot */
+        if (MAP_SIZE_MOD(m, index - entry_index) >= MAP_SIZE_MOD(m, removed_index - entry_index)) {
             memcpy(removed_entry, entry, sizeof(map_elem));
             removed_index = index;
             removed_entry = entry;
